@@ -66,6 +66,7 @@ type Sel struct {
 // SelBegin is the scheduling point of a select with n communication cases.
 // Outside a simulation Plain() is true and the generated code falls through
 // to the original blocking select.
+//
 //go:norace
 func SelBegin(n int) Sel {
 	t := Pre("select")
@@ -81,10 +82,12 @@ func SelBegin(n int) Sel {
 }
 
 // Plain reports that no simulation is active for this select.
+//
 //go:norace
 func (s Sel) Plain() bool { return s.t == nil }
 
 // Order returns the order in which ready cases are tried.
+//
 //go:norace
 func (s Sel) Order() []int {
 	o := make([]int, s.n)
@@ -95,10 +98,12 @@ func (s Sel) Order() []int {
 }
 
 // Hit records that case i was taken by a non-blocking try (evidence).
+//
 //go:norace
 func (s Sel) Hit(i int) {}
 
 // End re-acquires the token after the (possibly blocking) select.
+//
 //go:norace
 func (s Sel) End() { Post(s.t) }
 
